@@ -11,7 +11,7 @@ mkdir -p .build
 for spec in "$@"; do
   d=${spec%%:*}; ids=${spec##*:}
   patch=/verif/seeded/$d/patch.diff
-  [ -f "$patch" ] || patch=$d
+  [ -f "$patch" ] || patch="$(pwd)/$d"
   if [ "$d" != "BASE" ]; then
     git -C "$R" apply "$patch" || { echo "RESULT $d APPLY-FAILED"; continue; }
   fi
